@@ -1,6 +1,7 @@
 package main
 
 import (
+	"go/token"
 	"strings"
 
 	"golang.org/x/tools/go/ssa"
@@ -164,6 +165,53 @@ func checkC04(p *Prog, r *Report) {
 			case "(*os.Root).Symlink", "os.Symlink", pkgRenameio + ".Symlink", pkgUnix + ".Symlink", pkgUnix + ".Symlinkat", "syscall.Symlink":
 				r.Bad("C04/SYMLINK-ATOMIC", funcKey(fn)+" → "+calleeName(c), p.Pos(instrPos(c)), "non-atomic (remove + symlink) or unrooted symlink creation")
 			}
+		})
+	}
+
+	// ---- NO-UNLINK-BEFORE-REPLACE ----
+	r.Rule("C04/NO-UNLINK-BEFORE-REPLACE", "outside the --delete walk the receiver unlinks a destination path only at the two type-change sites (a non-directory in the way of a directory; a non-regular entry in the way of a regular file); in particular never before a symlink or file is replaced, which must happen by atomic rename alone", 2)
+	modeFld := p.Field(pkgReceiver, "File", "Mode")
+	for _, fn := range recvFuncs {
+		if isWalkDirFunc(fn) {
+			continue
+		}
+		allCalls(fn, func(c ssa.CallInstruction) {
+			n := calleeName(c)
+			if n != "(*os.Root).Remove" && n != "(*os.Root).RemoveAll" {
+				return
+			}
+			dirBranch, regBranch, notRegularDest, notDirDest := false, false, false, false
+			for _, f := range FactsAt(c) {
+				switch x := f.Cond.(type) {
+				case *ssa.BinOp:
+					if x.Op == token.EQL && f.Val {
+						if and, ok := x.X.(*ssa.BinOp); ok && and.Op == token.AND && modeFld != nil {
+							if base, fld := loadedField(and.X); fld == modeFld && base != nil {
+								if k, isK := constInt(x.Y); isK && k == 0o040000 {
+									dirBranch = true
+								}
+							}
+						}
+					}
+				case *ssa.Call:
+					cn := calleeName(x)
+					if cn == "(io/fs.FileMode).IsRegular" {
+						if inner, ok := x.Common().Args[0].(*ssa.Call); ok {
+							if sc := inner.Common().StaticCallee(); sc != nil && sc.Name() == "FileMode" && f.Val {
+								regBranch = true
+							}
+							if inner.Common().IsInvoke() && inner.Common().Method.Name() == "Mode" && !f.Val {
+								notRegularDest = true
+							}
+						}
+					}
+					if x.Common().IsInvoke() && x.Common().Method.Name() == "IsDir" && !f.Val {
+						notDirDest = true
+					}
+				}
+			}
+			ok := (dirBranch && notDirDest) || (regBranch && notRegularDest)
+			r.Cond(ok, "C04/NO-UNLINK-BEFORE-REPLACE", funcKey(fn)+" → "+n, p.Pos(instrPos(c)), "a destination path is unlinked outside the two type-change sites: the path is absent until (and unless) its replacement succeeds")
 		})
 	}
 
